@@ -596,6 +596,55 @@ def other_items():
     def body():
         g = tgen()
         next(g)
+    # the options of the call govern extract_outermost exactly as they govern extract: a manager hosting "child tasks"
+    # (its elaborate_context hook calls extract_child(for_task=True)) in the outermost frame
+    class Group:
+        def __init__(self, kids):
+            self.kids = kids
+
+        def __bool__(self):
+            return False
+
+        def __enter__(self):
+            return self
+
+        def __exit__(self, *a):
+            return False
+
+    @stackscope.elaborate_context.register(Group)
+    def _elab_group(mgr, context):
+        context.children = [stackscope.extract_child(k, for_task=True) for k in mgr.kids]
+
+    def hosting(kids):
+        with Group(kids):
+            yield 1
+    kids = [_parked(), _parked()]
+    for k in kids:
+        next(k)
+    hg = hosting(kids)
+    next(hg)
+    for wc in (True, False):
+        for rct in (True, False):
+            n += 1
+            st = stackscope.extract(hg, with_contexts=wc, recurse_child_tasks=rct)
+            try:
+                om = stackscope.extract_outermost(hg, with_contexts=wc, recurse_child_tasks=rct)
+            except Exception as ex:
+                bad.append("options with_contexts=%s recurse_child_tasks=%s: extract_outermost raised %r" % (wc, rct, ex))
+                continue
+            if wc:
+                kidsf = [len(c.frames) for c in st.frames[0].contexts[0].children] if st.frames[0].contexts else None
+                if kidsf != ([1, 1] if rct else [0, 0]):
+                    bad.append("harness: child stacks under recurse_child_tasks=%s have %s frames" % (rct, kidsf))
+            elif st.frames[0].contexts:
+                bad.append("harness: with_contexts=False left contexts")
+            if not same_first(om, st):
+                bad.append("with_contexts=%s recurse_child_tasks=%s: extract_outermost differs from frames[0] of extract with the "
+                           "same options (contexts %s / %s)" % (wc, rct, [[len(k.frames) for k in c.children] for c in om.contexts],
+                                                                [[len(k.frames) for k in c.children] for c in st.frames[0].contexts]))
+    hg.close()
+    for k in kids:
+        k.close()
     th = threading.Thread(target=body, daemon=True)
     th.start()
     ready.wait(10)
